@@ -401,8 +401,8 @@ type fin =
 | FNil
 | FSet of nat list * nat
 
-type st = { s_ref : nat; s_fin : fin; s_open : bool; s_segs : nat list;
-            s_min : nat }
+type st = { s_ref : nat; s_ret : bool; s_fin : fin; s_open : bool;
+            s_segs : nat list; s_min : nat }
 
 type shared = { g_closed : bool; g_mu : tid option; g_trig : bool;
                 g_trig_closed : bool; g_await : nat option;
@@ -498,6 +498,8 @@ val set_meta : shared -> nat -> nat -> shared
 val st_ref : st -> nat -> st
 
 val st_fin : st -> fin -> st
+
+val st_retire : st -> fin -> st
 
 val upd_st : shared -> nat -> st -> shared
 
